@@ -80,10 +80,19 @@ theorem running_until_fnEnd {s s' : State} {l : Label} (c : Nat) (hc : s.pc c = 
     rename_i hpa
     have hac : c ≠ a := by intro h; subst h; rw [hc] at hpa; cases hpa
     split at hs <;> simp at hs <;> subst hs <;> (simp only [upd_other _ _ _ _ hac]; exact hc)
-  | fnStart a =>
-    simp only [step] at hs; split at hs <;> simp at hs
+  | leadHit a =>
+    simp only [step] at hs
+    split at hs <;> try (simp at hs)
     rename_i hpa
     have hac : c ≠ a := by intro h; subst h; rw [hc] at hpa; cases hpa
+    split at hs <;> simp at hs
+    subst hs; simp only [upd_other _ _ _ _ hac]; exact hc
+  | fnStart a =>
+    simp only [step] at hs
+    split at hs <;> try (simp at hs)
+    rename_i hpa
+    have hac : c ≠ a := by intro h; subst h; rw [hc] at hpa; cases hpa
+    split at hs <;> simp at hs
     subst hs; simp only [upd_other _ _ _ _ hac]; exact hc
   | cacheSet a =>
     simp only [step] at hs
@@ -107,26 +116,39 @@ theorem running_until_fnEnd {s s' : State} {l : Label} (c : Nat) (hc : s.pc c = 
 
 /-! ## every returned result has a source -/
 
-theorem published {s : State} {l : Nat} {r : Res} (hl : Local cfg s l) (hr : s.result l = some r) :
-    s.execRes l = some r ∧ s.started l = true := by
-  unfold Local at hl
-  split at hl <;> simp_all
+/-- the result published by a leader that ran the function is that function's result -/
+theorem published {s : State} {l : Nat} {r : Res} (hl : Local cfg s l) (hr : s.result l = some r)
+    (hs : s.src l = some (.exec l)) : s.execRes l = some r ∧ s.started l = true := by
+  rcases (published_cases hl hr).2 with ⟨_, h1, h2⟩ | ⟨v, _, h, _⟩
+  · exact ⟨h2, h1⟩
+  · rw [hs] at h; cases h
 
-/-- a caller that has returned `r` got either the value read from the cache by its `cacheCheck`, or
-the result of the execution it led or joined — an execution for the same key that had started before
-the caller returned -/
+/-- a caller that has returned `r` got
+* the value read from the cache by its own `cacheCheck`, or
+* the result of the execution it led or joined — an execution for the same key that had started before
+  the caller returned, or
+* the value the leader `l` of its flight (a caller of the same key, possibly the caller itself) read
+  from the cache at its re-check inside `Do`: `l` ran nothing, nor did the caller
+(statement changed with the leader's re-check: the third alternative is new) -/
 theorem result_has_source {s : State} (h : Reachable cfg (init c0 now0) s) (c : Nat) (r : Res)
     (hd : s.pc c = .done r) :
     (∃ v, r = .ok v ∧ s.src c = some (.hit v)) ∨
-    (∃ l, s.src c = some (.exec l) ∧ cfg.key l = cfg.key c ∧ s.execRes l = some r ∧ s.started l = true) := by
+    (∃ l, s.src c = some (.exec l) ∧ cfg.key l = cfg.key c ∧ s.execRes l = some r ∧ s.started l = true) ∨
+    (∃ l v, r = .ok v ∧ s.src c = some (.lhit l v) ∧ cfg.key l = cfg.key c ∧ s.src l = some (.lhit l v) ∧
+        s.started l = false ∧ s.started c = false) := by
   have hi := inv_reachable h
   have hl := hi.loc c
   simp only [Local, hd] at hl
-  rcases hl with ⟨v, h1, h2, _⟩ | ⟨h1, h2, h3, _⟩ | ⟨l, h1, h2, h3, _⟩
+  rcases hl with ⟨v, h1, h2, _⟩ | ⟨h1, h2, h3, _⟩ | ⟨l, h1, h2, h3, _, _, _, h7⟩ | ⟨v, h1, h2, h3, _⟩ |
+    ⟨l, v, h1, h2, h3, h4, h5, _, _, h8⟩
   · exact Or.inl ⟨v, h1, h2⟩
-  · exact Or.inr ⟨c, h1, rfl, h3, h2⟩
-  · have := published (hi.loc l) h3
-    exact Or.inr ⟨l, h1, h2, this.1, this.2⟩
+  · exact Or.inr (Or.inl ⟨c, h1, rfl, h3, h2⟩)
+  · have := published (hi.loc l) h3 h7
+    exact Or.inr (Or.inl ⟨l, h1, h2, this.1, this.2⟩)
+  · exact Or.inr (Or.inr ⟨c, v, h1, h2, rfl, h2, h3, h3⟩)
+  · rcases (published_cases (hi.loc l) h4).2 with ⟨k, _⟩ | ⟨_, _, _, k, _⟩
+    · rw [h8] at k; cases k
+    · exact Or.inr (Or.inr ⟨l, v, h1, h2, h3, h8, k, h5⟩)
 
 /-- the value a hit returns is the one `Cache.Get` produced at that `cacheCheck` step -/
 theorem hit_reads_cache {s s' : State} (c : Nat) (v : Int)
@@ -138,6 +160,31 @@ theorem hit_reads_cache {s s' : State} (c : Nat) (v : Int)
   simp only [Option.some.injEq] at hs
   subst hs
   simp
+
+/-- the leader's re-check: `leadHit` is enabled exactly on a live value, which is the value the caller will
+return (`pc = setDone (.ok v)`: `doFinish` publishes it); nothing runs, nothing is written to the cache -/
+theorem leadhit_reads_cache {s s' : State} (c : Nat) (hs : step cfg s (.leadHit c) = some s') :
+    ∃ v, cellGet s.now (s.cache (cfg.key c)) = some v ∧ s.pc c = .leader ∧
+      s'.pc c = .setDone (.ok v) ∧ s'.src c = some (.lhit c v) ∧ s'.started = s.started ∧
+      s'.cache = s.cache ∧ s'.inflight = s.inflight ∧ s'.flight = s.flight := by
+  simp only [step] at hs
+  split at hs <;> try (simp at hs)
+  rename_i hpc
+  split at hs <;> simp at hs
+  rename_i v hv
+  subst hs
+  exact ⟨v, hv, hpc, by simp, by simp, rfl, rfl, rfl, rfl⟩
+
+/-- the leader's step is determined by its re-check: with a live value only `leadHit` is enabled, without
+one only `fnStart` -/
+theorem leader_step_determined (s : State) (c : Nat) (hpc : s.pc c = .leader) :
+    (∀ v, cellGet s.now (s.cache (cfg.key c)) = some v →
+        (step cfg s (.leadHit c)).isSome = true ∧ step cfg s (.fnStart c) = none) ∧
+    (cellGet s.now (s.cache (cfg.key c)) = none →
+        step cfg s (.leadHit c) = none ∧ (step cfg s (.fnStart c)).isSome = true) := by
+  constructor
+  · intro v hv; simp [step, hpc, hv]
+  · intro hv; simp [step, hpc, hv]
 
 /-- every cached value was there at the start or is the successful result of an execution for that
 very key (no contamination between keys) -/
@@ -151,14 +198,16 @@ theorem cached_value_origin {s : State} (h : Reachable cfg (init c0 now0) s) (k 
 theorem joiners_equal {s : State} (h : Reachable cfg (init c0 now0) s) (c c' l : Nat) (r r' : Res)
     (hs : s.src c = some (.exec l)) (hs' : s.src c' = some (.exec l))
     (hd : s.pc c = .done r) (hd' : s.pc c' = .done r') : r = r' := by
-  rcases result_has_source h c r hd with ⟨v, _, h2⟩ | ⟨l1, h1, _, h3, _⟩
+  rcases result_has_source h c r hd with ⟨v, _, h2⟩ | ⟨l1, h1, _, h3, _⟩ | ⟨l1, v, _, h2, _⟩
   · rw [hs] at h2; cases h2
-  · rcases result_has_source h c' r' hd' with ⟨v, _, h2⟩ | ⟨l2, h1', _, h3', _⟩
+  · rcases result_has_source h c' r' hd' with ⟨v, _, h2⟩ | ⟨l2, h1', _, h3', _⟩ | ⟨l2, v, _, h2, _⟩
     · rw [hs'] at h2; cases h2
     · rw [hs] at h1; rw [hs'] at h1'
       cases h1; cases h1'
       rw [h3] at h3'
       exact Option.some.inj h3'
+    · rw [hs'] at h2; cases h2
+  · rw [hs] at h2; cases h2
 
 /-! ## a live cached value is served and nothing runs -/
 
@@ -172,11 +221,27 @@ theorem reachable_trans {s0 s1 s2 : State} (h1 : Reachable cfg s0 s1) (h2 : Reac
 theorem hit_local {s : State} {c : Nat} {v : Int} (hl : Local cfg s c)
     (hs : s.src c = some (.hit v)) : s.pc c = .done (.ok v) ∧ s.started c = false := by
   unfold Local at hl
-  split at hl
-  all_goals (try simp_all)
-  obtain ⟨v1, h1, h2, h3, _⟩ := hl
-  subst h2
-  exact ⟨h1, h3⟩
+  cases hp : s.pc c with
+  | done r =>
+    simp only [hp] at hl
+    rcases hl with ⟨w, h1, h2, h3, _⟩ | ⟨h2, _⟩ | ⟨l, h2, _⟩ | ⟨w, _, h2, _⟩ | ⟨l, w, _, h2, _⟩
+    · rw [hs] at h2; cases h2; exact ⟨by rw [h1], h3⟩
+    · rw [hs] at h2; cases h2
+    · rw [hs] at h2; cases h2
+    · rw [hs] at h2; cases h2
+    · rw [hs] at h2; cases h2
+  | idle => simp only [hp] at hl; rw [hl.1] at hs; cases hs
+  | start => simp only [hp] at hl; rw [hl.1] at hs; cases hs
+  | missed => simp only [hp] at hl; rw [hl.1] at hs; cases hs
+  | waiting l => simp only [hp] at hl; rw [hl.1] at hs; cases hs
+  | leader => simp only [hp] at hl; rw [hl.1] at hs; cases hs
+  | running => simp only [hp] at hl; rw [hl.1] at hs; cases hs
+  | ran r => simp only [hp] at hl; rw [hl.1] at hs; cases hs
+  | setDone r =>
+    simp only [hp] at hl
+    rcases hl with hl | ⟨w, _, h2, _⟩
+    · rw [hl.1] at hs; cases hs
+    · rw [hs] at h2; cases h2
 
 theorem hit_never_starts {s : State} (h : Reachable cfg (init c0 now0) s) (c : Nat) (v : Int)
     (hs : s.src c = some (.hit v)) : s.pc c = .done (.ok v) ∧ s.started c = false :=
@@ -203,15 +268,28 @@ theorem src_hit_stable {s s' : State} {l : Label} (hi : Inv cfg c0 s) (c : Nat) 
     · simp only [upd_other _ _ _ _ hne]; exact hsrc
     · simp only [upd_other _ _ _ _ hne]; exact hsrc
   | invoke a => simp only [step] at hs; split at hs <;> simp at hs; subst hs; exact hsrc
-  | fnStart a => simp only [step] at hs; split at hs <;> simp at hs; subst hs; exact hsrc
+  | leadHit a =>
+    simp only [step] at hs
+    split at hs <;> try (simp at hs)
+    rename_i hpa
+    have hne : c ≠ a := by intro hca; subst hca; rw [hpc] at hpa; cases hpa
+    split at hs <;> simp at hs
+    subst hs; simp only [upd_other _ _ _ _ hne]; exact hsrc
+  | fnStart a =>
+    simp only [step] at hs
+    split at hs <;> try (simp at hs)
+    split at hs <;> simp at hs
+    subst hs; exact hsrc
   | fnEnd a r => simp only [step] at hs; split at hs <;> simp at hs; subst hs; exact hsrc
   | cacheSet a => simp only [step] at hs; split at hs <;> simp at hs <;> subst hs <;> exact hsrc
   | doFinish a => simp only [step] at hs; split at hs <;> simp at hs; subst hs; exact hsrc
   | wake a =>
     simp only [step] at hs
     split at hs <;> try (simp at hs)
+    rename_i hpa
+    have hne : c ≠ a := by intro hca; subst hca; rw [hpc] at hpa; cases hpa
     split at hs <;> simp at hs
-    subst hs; exact hsrc
+    subst hs; simp only [upd_other _ _ _ _ hne]; exact hsrc
   | tick d => simp only [step, Option.some.injEq] at hs; subst hs; exact hsrc
 
 /-- if `cacheCheck` finds a live value, the caller returns exactly that value, and in every state
@@ -255,7 +333,16 @@ theorem cache_written_only_on_success {s s' : State} (l : Label) (hs : step cfg 
     simp only [step] at hs
     split at hs <;> try (simp at hs)
     split at hs <;> simp at hs <;> subst hs <;> exact absurd rfl hne
-  | fnStart a => simp only [step] at hs; split at hs <;> simp at hs; subst hs; exact absurd rfl hne
+  | leadHit a =>
+    simp only [step] at hs
+    split at hs <;> try (simp at hs)
+    split at hs <;> simp at hs
+    subst hs; exact absurd rfl hne
+  | fnStart a =>
+    simp only [step] at hs
+    split at hs <;> try (simp at hs)
+    split at hs <;> simp at hs
+    subst hs; exact absurd rfl hne
   | fnEnd a r => simp only [step] at hs; split at hs <;> simp at hs; subst hs; exact absurd rfl hne
   | doFinish a => simp only [step] at hs; split at hs <;> simp at hs; subst hs; exact absurd rfl hne
   | wake a =>
@@ -280,9 +367,10 @@ theorem error_only_history_leaves_cache_empty {s : State} (h : Reachable cfg (in
 whose source is execution `l` returns `l`'s result, error included -/
 theorem execution_result_returned {s : State} (h : Reachable cfg (init c0 now0) s) (c l : Nat) (r : Res)
     (hs : s.src c = some (.exec l)) (hd : s.pc c = .done r) : s.execRes l = some r := by
-  rcases result_has_source h c r hd with ⟨v, _, h2⟩ | ⟨l1, h1, _, h3, _⟩
+  rcases result_has_source h c r hd with ⟨v, _, h2⟩ | ⟨l1, h1, _, h3, _⟩ | ⟨l1, v, _, h2, _⟩
   · rw [hs] at h2; cases h2
   · rw [hs] at h1; cases h1; exact h3
+  · rw [hs] at h2; cases h2
 
 /-! ## different keys do not block or contaminate each other -/
 
@@ -315,9 +403,19 @@ theorem step_frame {s s' : State} {l : Label} {c : Nat} (hc : l.caller = some c)
     · exact ⟨rfl, fun k _ => ⟨rfl, rfl, rfl⟩, fun c' h => ⟨upd_other _ _ _ _ h, rfl, upd_other _ _ _ _ h, rfl, rfl⟩⟩
     · exact ⟨rfl, fun k hk => ⟨rfl, upd_other _ _ _ _ hk, rfl⟩,
         fun c' h => ⟨upd_other _ _ _ _ h, rfl, upd_other _ _ _ _ h, rfl, rfl⟩⟩
+  | leadHit a =>
+    simp only [Label.caller, Option.some.injEq] at hc; subst hc
+    simp only [step] at hs
+    split at hs <;> try (simp at hs)
+    split at hs <;> simp at hs
+    subst hs
+    exact ⟨rfl, fun k _ => ⟨rfl, rfl, rfl⟩, fun c' h => ⟨upd_other _ _ _ _ h, rfl, upd_other _ _ _ _ h, rfl, rfl⟩⟩
   | fnStart a =>
     simp only [Label.caller, Option.some.injEq] at hc; subst hc
-    simp only [step] at hs; split at hs <;> simp at hs; subst hs
+    simp only [step] at hs
+    split at hs <;> try (simp at hs)
+    split at hs <;> simp at hs
+    subst hs
     exact ⟨rfl, fun k hk => ⟨rfl, rfl, upd_other _ _ _ _ hk⟩,
       fun c' h => ⟨upd_other _ _ _ _ h, rfl, rfl, upd_other _ _ _ _ h, rfl⟩⟩
   | fnEnd a r =>
@@ -342,7 +440,7 @@ theorem step_frame {s s' : State} {l : Label} {c : Nat} (hc : l.caller = some c)
     split at hs <;> try (simp at hs)
     split at hs <;> simp at hs
     subst hs
-    exact ⟨rfl, fun k _ => ⟨rfl, rfl, rfl⟩, fun c' h => ⟨upd_other _ _ _ _ h, rfl, rfl, rfl, rfl⟩⟩
+    exact ⟨rfl, fun k _ => ⟨rfl, rfl, rfl⟩, fun c' h => ⟨upd_other _ _ _ _ h, rfl, upd_other _ _ _ _ h, rfl, rfl⟩⟩
 
 theorem upd_agree {α : Type} {f g : Nat → α} {a : Nat} {b : α} {c : Nat} (h : f c = g c) :
     upd f a b c = upd g a b c := by
@@ -393,12 +491,22 @@ theorem step_depends_on_own_key_only {s s' t : State} {l : Label} {c : Nat}
     split at hs <;> simp at hs <;> subst hs
     · exact ⟨_, rfl, a1, a2, a3, fun c' h => upd_agree (a4 c' h), a5⟩
     · exact ⟨_, rfl, a1, a2, by simp, fun c' h => upd_agree (a4 c' h), a5⟩
+  | leadHit a =>
+    simp only [Label.caller, Option.some.injEq] at hc; subst hc
+    simp only [step] at hs ⊢
+    rw [← hpc, ← a1, ← a2]
+    split at hs <;> try (simp at hs)
+    split at hs <;> simp at hs
+    subst hs
+    exact ⟨_, rfl, rfl, a2, a3, fun c' h => upd_agree (a4 c' h), a5⟩
   | fnStart a =>
     simp only [Label.caller, Option.some.injEq] at hc; subst hc
     simp only [step] at hs ⊢
-    rw [← hpc]
-    split at hs <;> simp at hs; subst hs
-    exact ⟨_, rfl, a1, a2, a3, fun c' h => upd_agree (a4 c' h), a5⟩
+    rw [← hpc, ← a1, ← a2]
+    split at hs <;> try (simp at hs)
+    split at hs <;> simp at hs
+    subst hs
+    exact ⟨_, rfl, rfl, a2, a3, fun c' h => upd_agree (a4 c' h), a5⟩
   | fnEnd a r =>
     simp only [Label.caller, Option.some.injEq] at hc; subst hc
     simp only [step] at hs ⊢
@@ -446,6 +554,96 @@ theorem never_disabled_by_other_key {s s1 s2 : State} {l1 l2 : Label} {c c' : Na
       pc := fun x hx => ((hf.2.2 x (hne x hx)).1).symm
       result := fun x hx => ((hf.2.2 x (hne x hx)).2.1).symm }
   exact step_depends_on_own_key_only (inv_reachable h) hc hag h1
+
+/-! ## once a live value is cached, the function is not started -/
+
+/-- **the function never starts while a live value is cached**: in every reachable state, whenever a step —
+whatever its label, whoever takes it — starts the supplied function of a caller `c` (`c` is inside `fn()`
+after the step and was not before), the cache cell of `c`'s key holds no live value at that instant.
+The step is `c`'s own `fnStart`, the function-start outcome of the leader's re-check, and no other execution
+for the key is in progress.  (The protocol without the leader's re-check does not have this property: see the
+`stepOld` example below.) -/
+theorem no_start_while_cached {s s' : State} (h : Reachable cfg (init c0 now0) s) (l : Label) (c : Nat)
+    (hs : step cfg s l = some s') (hnot : s.pc c ≠ .running) (hrun : s'.pc c = .running) :
+    cellGet s.now (s.cache (cfg.key c)) = none ∧ l = .fnStart c ∧ s.inflight (cfg.key c) = 0 := by
+  -- a step of another caller does not move `c`
+  have other : ∀ a, l.caller = some a → c ≠ a → False := by
+    intro a ha hca
+    have := ((step_frame ha hs).2.2 c hca).1
+    rw [this] at hrun
+    exact hnot hrun
+  cases l with
+  | tick d => simp only [step, Option.some.injEq] at hs; subst hs; exact absurd hrun hnot
+  | fnStart a =>
+    by_cases hca : c = a
+    · subst hca
+      simp only [step] at hs
+      split at hs <;> try (simp at hs)
+      rename_i hpc
+      split at hs <;> simp at hs
+      rename_i hv
+      have hi := inv_reachable h
+      have hfa := hi.lead c (by simp [hpc, active])
+      refine ⟨hv, rfl, ?_⟩
+      rw [hi.infl, hfa]
+      simp [hpc]
+    · exact absurd (other a rfl hca) id
+  | invoke a =>
+    by_cases hca : c = a
+    · subst hca
+      simp only [step] at hs; split at hs <;> simp at hs
+      subst hs; simp [upd_same] at hrun
+    · exact absurd (other a rfl hca) id
+  | cacheCheck a =>
+    by_cases hca : c = a
+    · subst hca
+      simp only [step] at hs
+      split at hs <;> try (simp at hs)
+      split at hs <;> simp at hs <;> subst hs <;> simp [upd_same] at hrun
+    · exact absurd (other a rfl hca) id
+  | doEnter a =>
+    by_cases hca : c = a
+    · subst hca
+      simp only [step] at hs
+      split at hs <;> try (simp at hs)
+      split at hs <;> simp at hs <;> subst hs <;> simp [upd_same] at hrun
+    · exact absurd (other a rfl hca) id
+  | leadHit a =>
+    by_cases hca : c = a
+    · subst hca
+      simp only [step] at hs
+      split at hs <;> try (simp at hs)
+      split at hs <;> simp at hs
+      subst hs; simp [upd_same] at hrun
+    · exact absurd (other a rfl hca) id
+  | fnEnd a r =>
+    by_cases hca : c = a
+    · subst hca
+      exfalso
+      cases hp : s.pc c with
+      | running => exact hnot hp
+      | _ => simp [step, hp] at hs
+    · exact absurd (other a rfl hca) id
+  | cacheSet a =>
+    by_cases hca : c = a
+    · subst hca
+      simp only [step] at hs
+      split at hs <;> simp at hs <;> subst hs <;> simp [upd_same] at hrun
+    · exact absurd (other a rfl hca) id
+  | doFinish a =>
+    by_cases hca : c = a
+    · subst hca
+      simp only [step] at hs; split at hs <;> simp at hs
+      subst hs; simp [upd_same] at hrun
+    · exact absurd (other a rfl hca) id
+  | wake a =>
+    by_cases hca : c = a
+    · subst hca
+      simp only [step] at hs
+      split at hs <;> try (simp at hs)
+      split at hs <;> simp at hs
+      subst hs; simp [upd_same] at hrun
+    · exact absurd (other a rfl hca) id
 
 /-! ## the LTS with a single caller is the sequential model, and that satisfies the specification -/
 
@@ -587,14 +785,53 @@ example :
       (fun s => (s.pc 1, s.pc 2, s.cache 0)) = some (.done .err, .done .err, none) := by
   decide
 
-/-- the race the property allows: caller 2 misses the cache before caller 1 has stored its value and
-enters `Do` after caller 1 has left: it runs the function again (not overlapping), the cache keeps
-the first value, caller 2 returns its own -/
+/-- the late leader: caller 2 misses the cache before caller 1 has stored its value and enters `Do` after
+caller 1 has left.  Its re-check as leader finds caller 1's value: it does NOT run the function (`fnStart 2`
+is not enabled), it returns the cached value — and so does caller 3, which had missed too and joined
+caller 2's flight -/
+def exLateLeader : List Label := [.invoke 1, .invoke 2, .invoke 3, .cacheCheck 1, .cacheCheck 2, .cacheCheck 3,
+  .doEnter 1, .fnStart 1, .fnEnd 1 (.ok 7), .cacheSet 1, .doFinish 1, .doEnter 2, .doEnter 3]
+
 example :
-    (run (exCfg (-1)) exInit [.invoke 1, .invoke 2, .cacheCheck 1, .cacheCheck 2, .doEnter 1, .fnStart 1,
-      .fnEnd 1 (.ok 7), .cacheSet 1, .doFinish 1, .doEnter 2, .fnStart 2, .fnEnd 2 (.ok 8), .cacheSet 2,
-      .doFinish 2]).map (fun s => (s.pc 1, s.pc 2, s.cache 0, s.inflight 0)) =
-    some (.done (.ok 7), .done (.ok 8), some (7, -1), 0) := by
+    (run (exCfg (-1)) exInit (exLateLeader ++ [.leadHit 2, .doFinish 2, .wake 3])).map
+      (fun s => (s.pc 1, s.pc 2, s.pc 3, s.cache 0)) =
+    some (.done (.ok 7), .done (.ok 7), .done (.ok 7), some (7, -1)) := by
+  decide
+example :
+    (run (exCfg (-1)) exInit (exLateLeader ++ [.leadHit 2, .doFinish 2, .wake 3])).map
+      (fun s => (s.src 2, s.src 3, s.started 2, s.started 3, s.inflight 0)) =
+    some (some (.lhit 2 7), some (.lhit 2 7), false, false, 0) := by
+  decide
+example : (run (exCfg (-1)) exInit (exLateLeader ++ [.fnStart 2])).isNone = true := by decide
+
+/-- the OLD protocol (no re-check by the leader: `fnStart` is enabled whatever the cache holds), for the
+negative witness below -/
+def stepOld (cfg : Cfg) (s : State) : Label → Option State
+  | .leadHit _ => none
+  | .fnStart c =>
+    match s.pc c with
+    | .leader => some { s with pc := upd s.pc c .running, started := upd s.started c true,
+                               inflight := upd s.inflight (cfg.key c) (s.inflight (cfg.key c) + 1) }
+    | _ => none
+  | l => step cfg s l
+
+def runOld (cfg : Cfg) (s : State) : List Label → Option State
+  | [] => some s
+  | l :: ls => match stepOld cfg s l with
+    | some s' => runOld cfg s' ls
+    | none => none
+
+/-- negative witness: in the old protocol the same late leader starts the function although a live value
+is cached for its key (and goes on to return its own value 8, not the cached 7) -/
+example :
+    (runOld (exCfg (-1)) exInit exLateLeader).map
+      (fun s => (cellGet s.now (s.cache 0), (stepOld (exCfg (-1)) s (.fnStart 2)).map (fun s' => (s'.pc 2, s'.started 2)))) =
+    some (some 7, some (.running, true)) := by
+  decide
+example :
+    (runOld (exCfg (-1)) exInit (exLateLeader ++ [.fnStart 2, .fnEnd 2 (.ok 8), .cacheSet 2, .doFinish 2, .wake 3])).map
+      (fun s => (s.pc 1, s.pc 2, s.pc 3, s.cache 0)) =
+    some (.done (.ok 7), .done (.ok 8), .done (.ok 8), some (7, -1)) := by
   decide
 
 example : memoizeSeq 30 100 5 (some (7, 90)) (.ok 8) =
@@ -649,12 +886,15 @@ theorem log_execution_wellformed (h : ReachableLog cfg (init c0 now0) s g) (l b 
     exact ⟨i, a, g1, g2, g4, g5, h1.1, x, h1.2.2.1⟩
   | setDone x =>
     simp only [hp] at h1 h2
-    obtain ⟨⟨i, a, b', g1, g2, g3, g4, g5⟩, _⟩ := h2
-    rw [g3] at he; cases he
-    exact ⟨i, a, g1, g2, g4, g5, h1.1, x, h1.2.2.1⟩
+    rcases h1 with h1 | ⟨v, _, h3, _⟩
+    · simp only [h1.1] at h2
+      obtain ⟨⟨i, a, b', g1, g2, g3, g4, g5⟩, _⟩ := h2
+      rw [g3] at he; cases he
+      exact ⟨i, a, g1, g2, g4, g5, h1.1, x, h1.2.2.1⟩
+    · simp only [h3] at h2; rw [h2.1.2.2] at he; cases he
   | done x =>
     simp only [hp] at h1 h2
-    rcases h1 with ⟨v, _, h3, _⟩ | ⟨h3, _, h4, _⟩ | ⟨y, h3, _, hry, _, _, hrl⟩
+    rcases h1 with ⟨v, _, h3, _⟩ | ⟨h3, _, h4, _⟩ | ⟨y, h3, _, hry, _, _, hrl, _⟩ | ⟨v, _, h3, _⟩ | ⟨y, v, _, h3, _⟩
     · simp only [h3] at h2; rw [h2.2.2] at he; cases he
     · simp only [h3] at h2
       rcases h2 with ⟨_, i, a, b', t, g1, g2, g3, _, g5, g6, _⟩ | ⟨hne, _⟩
@@ -665,6 +905,8 @@ theorem log_execution_wellformed (h : ReachableLog cfg (init c0 now0) s g) (l b 
       rcases h2 with ⟨hy, _⟩ | ⟨_, _, g2, _⟩
       · subst hy; rw [hrl] at hry; cases hry
       · rw [g2] at he; cases he
+    · simp only [h3] at h2; rw [h2.2.2] at he; cases he
+    · simp only [h3] at h2; rw [h2.2.2] at he; cases he
 
 /-- **(2)** every caller that has returned `r` was invoked before it returned, and `r` is either
 * the cached value its `cacheCheck` read (and then the caller has no execution of its own), or
@@ -674,32 +916,51 @@ theorem log_execution_wellformed (h : ReachableLog cfg (init c0 now0) s g) (l b 
 So the execution *overlapped or preceded* the call in exactly this sense: it never starts after the
 caller has returned, and the call never starts after the execution's result has been handed back to
 its own caller.  It is NOT always true that the execution ended after the caller was invoked: a caller
-invoked between `fnEnd` and `doFinish` of the leader still joins (see the `example` below). -/
+invoked between `fnEnd` and `doFinish` of the leader still joins (see the `example` below).
+* NEW with the leader's re-check (statement extended by this alternative): the cached value the leader `l`
+  of the caller's flight (a caller of the same key, possibly the caller itself) read at its re-check inside
+  `Do`; then neither the caller nor `l` has an execution in the log, and a joiner was invoked before `l`
+  returned and returned after it (`i < tl < t`).  Where that value comes from: `log_leadhit_value_live`. -/
 theorem log_result_has_source (h : ReachableLog cfg (init c0 now0) s g) (c : Nat) (r : Res)
     (hd : s.pc c = .done r) :
     ∃ i t, g.invAt c = some i ∧ g.retAt c = some t ∧ i < t ∧
       ((∃ v, r = .ok v ∧ s.src c = some (.hit v) ∧ g.startAt c = none) ∨
        (∃ l a b tl, s.src c = some (.exec l) ∧ cfg.key l = cfg.key c ∧ s.execRes l = some r ∧
           g.startAt l = some a ∧ g.endAt l = some b ∧ g.retAt l = some tl ∧
-          a < b ∧ b < t ∧ i < tl ∧ tl ≤ t)) := by
+          a < b ∧ b < t ∧ i < tl ∧ tl ≤ t) ∨
+       (∃ l v, r = .ok v ∧ s.src c = some (.lhit l v) ∧ cfg.key l = cfg.key c ∧ s.src l = some (.lhit l v) ∧
+          g.startAt c = none ∧ g.startAt l = none ∧ (l = c ∨ ∃ tl, g.retAt l = some tl ∧ i < tl ∧ tl < t))) := by
   obtain ⟨hi, hs⟩ := sinv_reachable h
   have h1 := hi.loc c
   have h2 := hs.loc c
   simp only [Local, hd] at h1
   simp only [SLocal, hd] at h2
-  rcases h1 with ⟨v, g1, g2, _⟩ | ⟨g1, _, g3, _⟩ | ⟨l, g1, g2, g3, _, _, g6⟩
+  rcases h1 with ⟨v, g1, g2, _⟩ | ⟨g1, _, g3, _⟩ | ⟨l, g1, g2, g3, _, _, g6, g7⟩ | ⟨v, g1, g2, _⟩ |
+    ⟨l, v, g1, g2, g3, g4, _, _, _, g8⟩
   · simp only [g2] at h2
     obtain ⟨⟨i, t, k1, k2, k3⟩, k4, _⟩ := h2
     exact ⟨i, t, k1, k2, k3, Or.inl ⟨v, g1, g2, k4⟩⟩
   · simp only [g1] at h2
     rcases h2 with ⟨_, i, a, b, t, k1, k2, k3, k4, k5, k6, k7⟩ | ⟨hne, _⟩
-    · exact ⟨i, t, k1, k4, by omega, Or.inr ⟨c, a, b, t, g1, rfl, g3, k2, k3, k4, k6, k7, by omega, Nat.le_refl t⟩⟩
+    · exact ⟨i, t, k1, k4, by omega,
+        Or.inr (Or.inl ⟨c, a, b, t, g1, rfl, g3, k2, k3, k4, k6, k7, by omega, Nat.le_refl t⟩)⟩
     · exact absurd rfl hne
   · simp only [g1] at h2
-    have hex := (published (hi.loc l) g3).1
+    have hex := (published (hi.loc l) g3 g7).1
     rcases h2 with ⟨hl, _⟩ | ⟨_, _, _, i, t, a, b, tl, k1, k2, k3, k4, k5, k6, k7, k8, k9⟩
     · subst hl; rw [g6] at g3; cases g3
-    · exact ⟨i, t, k1, k2, by omega, Or.inr ⟨l, a, b, tl, g1, g2, hex, k3, k4, k5, k6, by omega, k9, by omega⟩⟩
+    · exact ⟨i, t, k1, k2, by omega,
+        Or.inr (Or.inl ⟨l, a, b, tl, g1, g2, hex, k3, k4, k5, k6, by omega, k9, by omega⟩)⟩
+  · simp only [g2] at h2
+    obtain ⟨⟨i, t, k1, k2, k3, _⟩, k4, _⟩ := h2
+    exact ⟨i, t, k1, k2, k3, Or.inr (Or.inr ⟨c, v, g1, g2, rfl, g2, k4, k4, Or.inl rfl⟩)⟩
+  · simp only [g2] at h2
+    obtain ⟨⟨i, t, k1, k2, k3, k5⟩, k4, _⟩ := h2
+    -- the leader has no execution either
+    have hpl := (published_cases (hi.loc l) g4).1
+    have h2l := hs.loc l
+    simp only [SLocal, hpl, g8] at h2l
+    exact ⟨i, t, k1, k2, k3, Or.inr (Or.inr ⟨l, v, g1, g2, g3, g8, k4, h2l.2.1, k5⟩)⟩
 
 /-- **(3)** callers that joined the same execution (leader included) got equal results -/
 theorem log_joiners_equal (h : ReachableLog cfg (init c0 now0) s g) (c c' l : Nat) (r r' : Res)
@@ -746,12 +1007,15 @@ theorem log_start_only_by_leader (h : ReachableLog cfg (init c0 now0) s g) (c a 
     exact ⟨h1.1, i, g1, g4⟩
   | setDone x =>
     simp only [hp] at h1 h2
-    obtain ⟨⟨i, a', b, g1, g2, _, g4, _⟩, _⟩ := h2
-    rw [g2] at hs; cases hs
-    exact ⟨h1.1, i, g1, g4⟩
+    rcases h1 with h1 | ⟨v, _, h3, _⟩
+    · simp only [h1.1] at h2
+      obtain ⟨⟨i, a', b, g1, g2, _, g4, _⟩, _⟩ := h2
+      rw [g2] at hs; cases hs
+      exact ⟨h1.1, i, g1, g4⟩
+    · simp only [h3] at h2; rw [h2.1.2.1] at hs; cases hs
   | done x =>
     simp only [hp] at h1 h2
-    rcases h1 with ⟨v, _, h3, _⟩ | ⟨h3, _⟩ | ⟨y, h3, _, hry, _, _, hrl⟩
+    rcases h1 with ⟨v, _, h3, _⟩ | ⟨h3, _⟩ | ⟨y, h3, _, hry, _, _, hrl, _⟩ | ⟨v, _, h3, _⟩ | ⟨y, v, _, h3, _⟩
     · simp only [h3] at h2; rw [h2.2.1] at hs; cases hs
     · simp only [h3] at h2
       rcases h2 with ⟨_, i, a', b, t, g1, g2, _, _, g5, _⟩ | ⟨hne, _⟩
@@ -762,6 +1026,8 @@ theorem log_start_only_by_leader (h : ReachableLog cfg (init c0 now0) s g) (c a 
       rcases h2 with ⟨hy, _⟩ | ⟨_, g2, _⟩
       · subst hy; rw [hrl] at hry; cases hry
       · rw [g2] at hs; cases hs
+    · simp only [h3] at h2; rw [h2.2.1] at hs; cases hs
+    · simp only [h3] at h2; rw [h2.2.1] at hs; cases hs
 
 /-- **(5)** after a history in which every execution for `k` that has ended returned an error (and
 nothing was cached for `k` beforehand), the cache holds no entry for `k` -/
@@ -953,6 +1219,7 @@ theorem monitor_srcConsistent (h : ReachableLog cfg (init c0 now0) s g) (L ids :
   | some y =>
     cases y with
     | hit v => simp [srcIndex]
+    | lhit l v => simp [srcIndex]
     | exec l =>
       rcases srcIndex_exec (specExecs cfg s g L) l with h1 | ⟨j, e, h1, he, hj⟩
       · rw [h1]; simp
@@ -970,9 +1237,11 @@ theorem monitor_srcConsistent (h : ReachableLog cfg (init c0 now0) s g) (L ids :
         have hr := execution_result_returned (reachableLog_reachable h) c l' r hs hd
         rw [hr] at hr'; cases hr'
         have hk : cfg.key l' = cfg.key c := by
-          rcases result_has_source (reachableLog_reachable h) c r hd with ⟨v, _, h2⟩ | ⟨l2, h1, h2, _⟩
+          rcases result_has_source (reachableLog_reachable h) c r hd with ⟨v, _, h2⟩ | ⟨l2, h1, h2, _⟩ |
+            ⟨l2, v, _, h2, _⟩
           · rw [hs] at h2; cases h2
           · rw [hs] at h1; cases h1; exact h2
+          · rw [hs] at h2; cases h2
         simp only [Bool.and_eq_true, beq_iff_eq]
         refine ⟨by rw [k1, hkey, hk], ?_⟩
         rw [hout, hval]
@@ -1052,11 +1321,12 @@ theorem monitor_execOwned (h : ReachableLogP cfg (init c0 now0) s g) (L ids : Li
   have hbt : b < t := by
     obtain ⟨i2, t2, m1, m2, _, m4⟩ := log_result_has_source h' l r' hd
     rw [j2] at m2; cases m2
-    rcases m4 with ⟨v, _, m5, _⟩ | ⟨l2, a2, b2, tl, m5, _, _, _, m8, _, _, m10, _⟩
+    rcases m4 with ⟨v, _, m5, _⟩ | ⟨l2, a2, b2, tl, m5, _, _, _, m8, _, _, m10, _⟩ | ⟨l2, v, _, m5, _⟩
     · rw [g5] at m5; cases m5
     · rw [g5] at m5; cases m5
       rw [h2] at m8; cases m8
       exact m10
+    · rw [g5] at m5; cases m5
   have htim : e.startT = x.invT := by
     have tl := (tinv_reachable h).loc l
     simp only [TLocal, hd, g5] at tl
@@ -1122,6 +1392,7 @@ theorem monitor_hasSource_exec (h : ReachableLogP cfg (init c0 now0) s g) (L ids
   | some y =>
   cases y with
   | hit v => rw [jsrc, hs] at hsrc; simp [srcIndex] at hsrc
+  | lhit l v => rw [jsrc, hs] at hsrc; simp [srcIndex] at hsrc
   | exec l =>
   rw [hs] at jsrc
   rcases srcIndex_exec (specExecs cfg s g L) l with h1 | ⟨j, e, h1, he, hj⟩
@@ -1139,7 +1410,8 @@ theorem monitor_hasSource_exec (h : ReachableLogP cfg (init c0 now0) s g) (L ids
     obtain ⟨i2, t2, m1, m2, _, m4⟩ := log_result_has_source h' c r hd
     rw [j1] at m1; cases m1
     rw [j2] at m2; cases m2
-    rcases m4 with ⟨v, _, m5, _⟩ | ⟨l2, a2, b2, tl, m5, mkey, _, m7, m8, m9, _, m11, m12, _⟩
+    rcases m4 with ⟨v, _, m5, _⟩ | ⟨l2, a2, b2, tl, m5, mkey, _, m7, m8, m9, _, m11, m12, _⟩ | ⟨l2, v, _, m5, _⟩
+    case inr.inr => rw [hs] at m5; cases m5
     · rw [hs] at m5; cases m5
     · rw [hs] at m5; cases m5
       rw [q1] at m7; cases m7
@@ -1203,6 +1475,16 @@ caller returned, with the deadline counted from that execution's end -/
 theorem log_hit_value_live (h : ReachableLogP cfg (init c0 now0) s g) (c : Nat) (v : Int)
     (hs : s.src c = some (.hit v)) : HitSource cfg c0 s g c v :=
   (cinv_reachable h).hit c v hs
+
+/-- **(2), cache side, for the leader's re-check**: under the virtual clock, the value a returned caller
+was served because the leader `l` of its flight (possibly the caller itself) read it from the cache at
+its re-check inside `Do` is, exactly as for a hit of the caller's own `cacheCheck`, an entry for the
+caller's own key that was live at the caller's invocation instant: the entry from before the run, or the
+one left by a successful execution of that key that had ended before the caller returned -/
+theorem log_leadhit_value_live (h : ReachableLogP cfg (init c0 now0) s g) (c l : Nat) (v : Int)
+    (hs : s.src c = some (.lhit l v)) (r : Res) (hd : s.pc c = .done r) : HitSource cfg c0 s g c v := by
+  obtain ⟨i, t, _, ht, _⟩ := log_result_has_source (reachableLogP_reachableLog h) c r hd
+  exact ((cinv_reachable h).lhit c l v hs).hitSource ht
 
 
 /-! ## the cache-history bridge: the remaining monitor clauses on the rendered log
@@ -1270,13 +1552,15 @@ theorem settled_leader_done {ids : List Nat} (st : Settled cfg c0 now0 s g h ids
     have h2 := A.sinv.loc l
     simp only [Local, hp] at h1
     simp only [SLocal, hp, hsrc] at h2
-    rcases h1 with ⟨v, _, k, _⟩ | ⟨_, _, k, _⟩ | ⟨y, k, _, k3, _, _, k6⟩
+    rcases h1 with ⟨v, _, k, _⟩ | ⟨_, _, k, _⟩ | ⟨y, k, _, k3, _, _, k6, _⟩ | ⟨v, _, k, _⟩ | ⟨y, v, _, k, _⟩
     · rw [hsrc] at k; cases k
     · rcases h2 with ⟨_, i, a', b, t, _, _, m3, _⟩ | ⟨hne, _⟩
       · exact ⟨r, b, hp, hsrc, k, m3⟩
       · exact absurd rfl hne
     · rw [hsrc] at k; cases k
       rw [k6] at k3; cases k3
+    · rw [hsrc] at k; cases k
+    · rw [hsrc] at k; cases k
 
 theorem order_rendered {ids : List Nat} (st : Settled cfg c0 now0 s g h ids) (l : Nat) (hl : l ∈ h.order) :
     specExec cfg s g l = some (execD cfg s g l) := by
@@ -1317,8 +1601,8 @@ theorem setLeader_mem_iff {ids : List Nat} (st : Settled cfg c0 now0 s g h ids) 
     obtain ⟨f1, _, _, _, f5⟩ := A.sets.fact p hp
     refine ⟨?_, hk, p.2.1, f1⟩
     have h2 := A.sinv.loc p.1
-    rcases f5 with ⟨v, hpc⟩ | ⟨v, hpc, hsrc⟩
-    · simp only [SLocal, hpc] at h2
+    rcases f5 with ⟨v, hpc, hsrc⟩ | ⟨v, hpc, hsrc⟩
+    · simp only [SLocal, hpc, hsrc] at h2
       obtain ⟨⟨i, a, b, _, m2, _⟩, _⟩ := h2
       exact (A.ord.mem _).2 ⟨a, m2⟩
     · simp only [SLocal, hpc, hsrc] at h2
@@ -1525,9 +1809,9 @@ theorem execsH_leader {e : Spec.C17.Exec} (he : e ∈ execsH cfg s g h) :
   obtain ⟨_, _, _, _, _, _, _, _, _, k4, _⟩ := specExec_some hle
   exact ⟨l, hl, hle, k4⟩
 
-/-- a caller that hit the cache leads no rendered execution -/
-theorem hit_not_leads {ids : List Nat} (st : Settled cfg c0 now0 s g h ids) (c : Nat) (v : Int)
-    (hs : s.src c = some (.hit v)) (x : Spec.C17.Call) (hid : x.id = (c : Int)) :
+/-- a caller without an execution in the log leads no rendered execution -/
+theorem noStart_not_leads {ids : List Nat} (st : Settled cfg c0 now0 s g h ids) (c : Nat)
+    (hns : g.startAt c = none) (x : Spec.C17.Call) (hid : x.id = (c : Int)) :
     Spec.C17.leads x (execsH cfg s g h) = false := by
   cases hl : Spec.C17.leads x (execsH cfg s g h) with
   | false => rfl
@@ -1538,36 +1822,74 @@ theorem hit_not_leads {ids : List Nat} (st : Settled cfg c0 now0 s g h ids) (c :
     have : l = c := by rw [k4, hid] at hel; omega
     subst this
     obtain ⟨a, ha⟩ := (st.all.ord.mem l).1 hlo
-    have := (log_hit_causes_no_start st.log l v hs).2.1
-    rw [this] at ha; cases ha
+    rw [hns] at ha; cases ha
 
-/-- **`fromCache`**: in a settled state, a caller that hit the cache passes the monitor's cache-source
-test: value, no source index, returned at its invocation instant, led no execution, and the value is
-live at its invocation instant in the entry before the run or in the `history` entry after an
-execution that had ended before the caller returned -/
-theorem monitor_fromCache {ids : List Nat} (st : Settled cfg c0 now0 s g h ids) (c : Nat) (v : Int)
-    (hs : s.src c = some (.hit v)) (x : Spec.C17.Call)
+/-- a caller that hit the cache leads no rendered execution -/
+theorem hit_not_leads {ids : List Nat} (st : Settled cfg c0 now0 s g h ids) (c : Nat) (v : Int)
+    (hs : s.src c = some (.hit v)) (x : Spec.C17.Call) (hid : x.id = (c : Int)) :
+    Spec.C17.leads x (execsH cfg s g h) = false :=
+  noStart_not_leads st c (log_hit_causes_no_start st.log c v hs).2.1 x hid
+
+/-- a returned caller that was served a cached value — read by its own `cacheCheck` (`Src.hit`) or by the
+re-check of its flight's leader (`Src.lhit`) — returned that value, at its invocation instant, has no
+execution in the log and no source index -/
+theorem cached_served {ids : List Nat} (st : Settled cfg c0 now0 s g h ids) (c : Nat) (v : Int)
+    (hv : hitVal (s.src c) = some v) (r : Res) (hd : s.pc c = .done r) :
+    r = .ok v ∧ g.startAt c = none ∧ (∃ ti, g.invT c = some ti ∧ g.retT c = some ti) ∧
+      ∀ execs, srcIndex execs (s.src c) = -1 := by
+  have A := st.all
+  have h1 := A.inv.loc c
+  have h2 := A.sinv.loc c
+  have h3 := A.tinv.loc c
+  simp only [Local, hd] at h1
+  simp only [SLocal, hd] at h2
+  simp only [TLocal, hd] at h3
+  cases hs : s.src c with
+  | none => rw [hs] at hv; simp [hitVal] at hv
+  | some y =>
+    cases y with
+    | exec l => rw [hs] at hv; simp [hitVal] at hv
+    | hit w =>
+      rw [hs] at hv; simp only [hitVal, Option.some.injEq] at hv; subst hv
+      simp only [hs] at h2 h3
+      have hp := (hit_local (A.inv.loc c) hs).1
+      rw [hd] at hp; cases hp
+      exact ⟨rfl, h2.2.1, h3, fun _ => rfl⟩
+    | lhit l w =>
+      rw [hs] at hv; simp only [hitVal, Option.some.injEq] at hv; subst hv
+      simp only [hs] at h2 h3
+      refine ⟨?_, h2.2.1, h3, fun _ => rfl⟩
+      rcases h1 with ⟨v, _, k, _⟩ | ⟨k, _⟩ | ⟨y, k, _⟩ | ⟨v, k0, k, _⟩ | ⟨y, v, k0, k, _⟩
+      · rw [hs] at k; cases k
+      · rw [hs] at k; cases k
+      · rw [hs] at k; cases k
+      · rw [hs] at k; cases k; exact k0
+      · rw [hs] at k; cases k; exact k0
+
+/-- **`fromCache`, general form**: in a settled state, a caller that was served a cached value (`Src.hit` or
+`Src.lhit`) passes the monitor's cache-source test: value, no source index, returned at its invocation
+instant, led no execution, and the value is live at its invocation instant in the entry before the run or
+in the `history` entry after an execution that had ended before the caller returned -/
+theorem fromCache_of_cached {ids : List Nat} (st : Settled cfg c0 now0 s g h ids) (c : Nat) (v : Int)
+    (hv : hitVal (s.src c) = some v) (x : Spec.C17.Call)
     (hx : specCall cfg s g (execsH cfg s g h) c = some x) :
     Spec.C17.fromCache x (e0Of c0 x.key)
       (Spec.C17.history cfg.expTime x.key (e0Of c0 x.key) (execsH cfg s g h)) (execsH cfg s g h) = true := by
   have A := st.all
   obtain ⟨r, i, t, hd, j1, j2, jid, jkey, _, jret, jout, jval, jsrc, jti, jtt⟩ := specCall_some hx
-  have hpc := (hit_local (A.inv.loc c) hs).1
-  rw [hd] at hpc; cases hpc
+  obtain ⟨hr, hns, ⟨ti0, n1, n2⟩, hsi⟩ := cached_served st c v hv r hd
+  subst hr
   -- the shape conjuncts
   have c1 : x.out = 0 := by rw [jout]; rfl
-  have c2 : x.src = -1 := by rw [jsrc, hs]; rfl
+  have c2 : x.src = -1 := by rw [jsrc]; exact hsi _
   have c3 : x.retT = x.invT := by
-    have tl := A.tinv.loc c
-    simp only [TLocal, hd, hs] at tl
-    obtain ⟨ti, n1, n2⟩ := tl
     rw [Option.some.inj (jti.symm.trans n1), Option.some.inj (jtt.symm.trans n2)]
-  have c4 := hit_not_leads st c v hs x jid
-  -- what the cacheCheck read
+  have c4 := noStart_not_leads st c hns x jid
+  -- what the caller's (re-)read of the cache saw
   obtain ⟨m, hm⟩ := A.read.has c (by rw [hd]; simp) (by rw [hd]; simp)
   obtain ⟨hmlen, ti, hti, hread⟩ := A.read.fact c m hm
   have eti : x.invT = ti := Option.some.inj (jti.symm.trans hti)
-  simp only [hs, hitVal] at hread
+  rw [hv] at hread
   have hkey : x.key.toNat = cfg.key c := by rw [jkey]; simp
   have he0 : e0Of c0 x.key = absCell (c0 (cfg.key c)) := by simp [e0Of, hkey]
   unfold Spec.C17.fromCache
@@ -1613,11 +1935,32 @@ theorem monitor_fromCache {ids : List Nat} (st : Settled cfg c0 now0 s g h ids) 
     have hget : (execsH cfg s g h)[(Ao.length : Int).toNat]? = some (execD cfg s g p.1) := by
       rw [hexecs]; simp
     rw [hget]
-    obtain ⟨b, hb, hbt⟩ := A.read.hitEnd c m t v hm hs j2 p hptake
+    obtain ⟨b, hb, hbt⟩ := A.read.hitEnd c m t v hm hv j2 p hptake
     obtain ⟨_, b', _, _, q2, _, _, _, k3, _⟩ := specExec_some (order_rendered st p.1 pO)
     rw [hb] at q2; cases q2
     simp only [decide_eq_true_eq, k3, jret]
     omega
+
+/-- **`fromCache`**: in a settled state, a caller that hit the cache passes the monitor's cache-source
+test: value, no source index, returned at its invocation instant, led no execution, and the value is
+live at its invocation instant in the entry before the run or in the `history` entry after an
+execution that had ended before the caller returned -/
+theorem monitor_fromCache {ids : List Nat} (st : Settled cfg c0 now0 s g h ids) (c : Nat) (v : Int)
+    (hs : s.src c = some (.hit v)) (x : Spec.C17.Call)
+    (hx : specCall cfg s g (execsH cfg s g h) c = some x) :
+    Spec.C17.fromCache x (e0Of c0 x.key)
+      (Spec.C17.history cfg.expTime x.key (e0Of c0 x.key) (execsH cfg s g h)) (execsH cfg s g h) = true :=
+  fromCache_of_cached st c v (by rw [hs]; rfl) x hx
+
+/-- **`fromCache` for the leader's re-check**: in a settled state, a caller that was served the value the
+leader `l` of its flight read from the cache at its re-check inside `Do` (the leader itself, `l = c`, or
+a joiner) passes the very same cache-source test of the monitor: the monitor needs no new alternative -/
+theorem monitor_fromCache_lead {ids : List Nat} (st : Settled cfg c0 now0 s g h ids) (c l : Nat) (v : Int)
+    (hs : s.src c = some (.lhit l v)) (x : Spec.C17.Call)
+    (hx : specCall cfg s g (execsH cfg s g h) c = some x) :
+    Spec.C17.fromCache x (e0Of c0 x.key)
+      (Spec.C17.history cfg.expTime x.key (e0Of c0 x.key) (execsH cfg s g h)) (execsH cfg s g h) = true :=
+  fromCache_of_cached st c v (by rw [hs]; rfl) x hx
 
 
 /-- a returned caller served by an execution gets a source index: that execution is rendered -/
@@ -1631,7 +1974,8 @@ theorem srcIndex_nonneg {ids : List Nat} (st : Settled cfg c0 now0 s g h ids) (c
     exfalso
     rw [List.findIdx?_eq_none_iff] at hf
     obtain ⟨_, _, _, _, _, m4⟩ := log_result_has_source st.log c r hd
-    rcases m4 with ⟨v, _, m5, _⟩ | ⟨l2, a, b, tl, m5, _, _, m7, _⟩
+    rcases m4 with ⟨v, _, m5, _⟩ | ⟨l2, a, b, tl, m5, _, _, m7, _⟩ | ⟨l2, v, _, m5, _⟩
+    case inr.inr => rw [hs] at m5; cases m5
     · rw [hs] at m5; cases m5
     · rw [hs] at m5; cases m5
       have hlo : l ∈ h.order := (st.all.ord.mem l).2 ⟨a, m7⟩
@@ -1654,9 +1998,10 @@ theorem monitor_hasSource {ids : List Nat} (st : Settled cfg c0 now0 s g h ids) 
   obtain ⟨r, i, t, hd, _, _, _, _, _, _, _, _, jsrc, _⟩ := specCall_some hc
   cases hs : s.src c with
   | none =>
-    rcases result_has_source (reachableLog_reachable st.log) c r hd with ⟨v, _, h2⟩ | ⟨l, h1, _⟩
+    rcases result_has_source (reachableLog_reachable st.log) c r hd with ⟨v, _, h2⟩ | ⟨l, h1, _⟩ | ⟨l, v, _, h2, _⟩
     · rw [hs] at h2; cases h2
     · rw [hs] at h1; cases h1
+    · rw [hs] at h2; cases h2
   | some y =>
     cases y with
     | hit v =>
@@ -1664,6 +2009,11 @@ theorem monitor_hasSource {ids : List Nat} (st : Settled cfg c0 now0 s g h ids) 
       rw [Bool.or_eq_true]
       right
       exact monitor_fromCache st c v hs x hc
+    | lhit l v =>
+      unfold Spec.C17.hasSource
+      rw [Bool.or_eq_true]
+      right
+      exact monitor_fromCache_lead st c l v hs x hc
     | exec l =>
       refine monitor_hasSource_exec st.logP h.order ids st.sub cfg.expTime (e0Of c0) x hx ?_
       rw [jsrc, hs]
@@ -1709,6 +2059,7 @@ theorem certain_is_read {ids : List Nat} (st : Settled cfg c0 now0 s g h ids) (c
       | some y =>
         cases y with
         | hit w => rw [ksrc, hsr] at hrsrc; simp [srcIndex] at hrsrc; omega
+        | lhit l w => rw [ksrc, hsr] at hrsrc; simp [srcIndex] at hrsrc; omega
         | exec l =>
           refine ⟨l, rfl, ?_⟩
           rcases srcIndex_exec (specExecs cfg s g h.order) l with h1 | ⟨j, e', h1, he', hj⟩
@@ -1787,22 +2138,12 @@ theorem monitor_servedIfCached {ids : List Nat} (st : Settled cfg c0 now0 s g h 
     rw [eti] at hlive
     have hcell := certain_is_read st c x hc m hm ti v hti hlive
     rw [hcell] at hread
-    -- so `c` hit the cache with value `v`
-    have hs : s.src c = some (.hit v) := by
-      cases hsc : s.src c with
-      | none => rw [hsc] at hread; simp [hitVal] at hread
-      | some y =>
-        cases y with
-        | hit w => rw [hsc] at hread; simp only [hitVal, Option.some.injEq] at hread; rw [hread]
-        | exec l => rw [hsc] at hread; simp [hitVal] at hread
-    have hpc := (hit_local (A.inv.loc c) hs).1
-    rw [hd] at hpc; cases hpc
+    -- so `c` was served the cached value `v`: by its own `cacheCheck`, or by the re-check of its flight's leader
+    obtain ⟨hr, hns, ⟨ti', n1, n2⟩, _⟩ := cached_served st c v hread.symm r hd
+    subst hr
     have c3 : x.retT = x.invT := by
-      have tl := A.tinv.loc c
-      simp only [TLocal, hd, hs] at tl
-      obtain ⟨ti', n1, n2⟩ := tl
       rw [Option.some.inj (jti.symm.trans n1), Option.some.inj (jtt.symm.trans n2)]
-    have c4 := hit_not_leads st c v hs x jid
+    have c4 := noStart_not_leads st c hns x jid
     simp only [Bool.and_eq_true, beq_iff_eq, Bool.not_eq_true']
     exact ⟨⟨⟨by rw [jout]; rfl, by rw [jval]; rfl⟩, c3⟩, c4⟩
   · rfl
@@ -1911,5 +2252,40 @@ example : ∃ s g h, Settled (exCfg 30) (fun _ => none) 0 s g h [1, 2, 3] ∧
         · exact Or.inr ⟨_, p3⟩
       sub := by intro l hl; rw [ho] at hl; simp at hl; subst hl; simp }
   exact ⟨s, g, h, st, monitor_accepts st 1⟩
+
+/-- the late leader under the monitor: caller 1 leads (value 7); callers 2 and 3 missed the cache before the
+value was stored; caller 2 becomes the leader of a second flight after caller 1 has left, caller 3 joins it;
+caller 2's re-check finds the value: nobody runs the function a second time, both return 7 -/
+def exSettledLate : List Label := exLateLeader ++ [.leadHit 2, .doFinish 2, .wake 3]
+
+example : ∃ s g h, Settled (exCfg (-1)) (fun _ => none) 0 s g h [1, 2, 3] ∧ s.src 3 = some (.lhit 2 7) ∧
+    Spec.C17.check (exCfg (-1)).expTime (e0Of (fun _ => none)) (specLog (exCfg (-1)) s g h [1, 2, 3] 1) = none := by
+  have hsome : (runH (exCfg (-1)) exInit EvLog.empty HLog.empty exSettledLate).isSome = true := by decide
+  obtain ⟨⟨s, g, h⟩, hrun⟩ := Option.isSome_iff_exists.1 hsome
+  have hfacts : (runH (exCfg (-1)) exInit EvLog.empty HLog.empty exSettledLate).map
+      (fun p => ((p.1.pc 1, p.1.pc 2, p.1.pc 3), p.2.2.order, p.1.src 3)) =
+      some ((.done (.ok 7), .done (.ok 7), .done (.ok 7)), [1], some (.lhit 2 7)) := by decide
+  rw [hrun] at hfacts
+  simp only [Option.map_some, Option.some.injEq, Prod.mk.injEq] at hfacts
+  obtain ⟨⟨p1, p2, p3⟩, ho, hs3⟩ := hfacts
+  have st : Settled (exCfg (-1)) (fun _ => none) 0 s g h [1, 2, 3] :=
+    { run := runH_reachable exInit exSettledLate exInit EvLog.empty HLog.empty s g h
+        (by
+          intro l hl d
+          simp only [exSettledLate, exLateLeader, List.cons_append, List.nil_append, List.mem_cons,
+            List.not_mem_nil, or_false] at hl
+          rcases hl with h | h | h | h | h | h | h | h | h | h | h | h | h | h | h | h <;>
+            (rw [h]; exact fun hh => by cases hh))
+        ReachableH.refl hrun
+      now0 := Int.le_refl 0
+      quiet := by
+        intro c hc
+        simp only [List.mem_cons, List.not_mem_nil, or_false] at hc
+        rcases hc with h | h | h <;> subst h
+        · exact Or.inr ⟨_, p1⟩
+        · exact Or.inr ⟨_, p2⟩
+        · exact Or.inr ⟨_, p3⟩
+      sub := by intro l hl; rw [ho] at hl; simp at hl; subst hl; simp }
+  exact ⟨s, g, h, st, hs3, monitor_accepts st 1⟩
 
 end GoguVerif.Theorems.C17
